@@ -96,7 +96,7 @@ func c08a(c *Ctx) {
 	// lines are written unconditionally inside their loops (nothing but the range test guards them)
 	uncond := func(w *writeSite) bool {
 		d := dropAtoms(w.cond, func(a string) bool {
-			return strings.Contains(a, " < builtin:len(") || strings.Contains(a, ".Scope == ")
+			return isRangeTest(a) || strings.Contains(a, ".Scope == ")
 		})
 		return dnfEquiv(d, mkDNF([]string{}))
 	}
